@@ -22,7 +22,11 @@ const CLS: [Option<&[u8]>; 12] = [
     Some(b"\xff"),
     Some(b"+1"),
 ];
-const TES: [Option<&[u8]>; 18] = [
+const TES: [Option<&[u8]>; 21] = [
+    // one coding list on several field lines (RFC 9110 5.3: the same as one comma-separated line)
+    Some(b"gzip\nchunked"),
+    Some(b"chunked\ngzip"),
+    Some(b"gzip\ndeflate, Chunked"),
     Some(b"chunked,"),
     Some(b"gzip, chunked, "),
     Some(b""),
@@ -47,7 +51,8 @@ fn head(status: u16, http10: bool, cl: Option<&[u8]>, te: Option<&[u8]>, te_firs
     let mut h = RespHead::new(http10, status);
     h.fields.push(Field::new("Server", b"t"));
     let clf = cl.map(|v| Field::new("Content-Length", v));
-    let tef = te.map(|v| Field::new("Transfer-Encoding", v));
+    // a '\n' in the shape stands for a coding list spread over several field lines
+    let tef: Vec<Field> = te.map(|v| v.split(|b| *b == b'\n').map(|part| Field::new("Transfer-Encoding", part)).collect()).unwrap_or_default();
     if te_first {
         h.fields.extend(tef);
         h.fields.extend(clf);
@@ -371,7 +376,7 @@ impl Property for P {
         "C06"
     }
     fn rule(&self) -> String {
-        "exhaustive decision table through the Flow API: 9 methods x status 101..=999 x response version 1.0/1.1 x 12 Content-Length shapes x 18 Transfer-Encoding shapes (incl. empty list elements, which count for nothing) (+ header order alternated); each cell feeds a real head + a body in the expected framing + a following response and compares try_response / proceed() variant / body_mode() / delivered body with an independent restatement of RFC 9112 section 6.3 (wire::body_rule). A second table through the Call API (14 statuses) separates 'no body' from 'zero length'. class = rule fired x successor state.".into()
+        "exhaustive decision table through the Flow API: 9 methods x status 101..=999 x response version 1.0/1.1 x 12 Content-Length shapes x 21 Transfer-Encoding shapes (incl. empty list elements, which count for nothing, and lists spread over two field lines) (+ header order alternated); each cell feeds a real head + a body in the expected framing + a following response and compares try_response / proceed() variant / body_mode() / delivered body with an independent restatement of RFC 9112 section 6.3 (wire::body_rule). A second table through the Call API (14 statuses) separates 'no body' from 'zero length'. class = rule fired x successor state.".into()
     }
     fn assumptions(&self) -> Vec<String> {
         vec![
@@ -382,8 +387,8 @@ impl Property for P {
     }
     fn workloads(&self, _tier: Tier) -> Vec<Workload> {
         vec![
-            Workload::new("flow-table", 9 * 899 * 2 * 12 * 18, true, "full product through Flow"),
-            Workload::new("call-table", 9 * 14 * 2 * 12 * 18, true, "14 statuses through Call::into_body"),
+            Workload::new("flow-table", 9 * 899 * 2 * 12 * 21, true, "full product through Flow"),
+            Workload::new("call-table", 9 * 14 * 2 * 12 * 21, true, "14 statuses through Call::into_body"),
             Workload::new("partial-redirect-framing", 4 * 4 * 2 * 3 * 3, true, "allow_partial_redirect(true): truncated 3xx heads, framing judged on the accepted fields"),
         ]
     }
